@@ -559,6 +559,26 @@ def sessionL {D} (dc : Decoder D) (cfg : StreamCfg) :
       | _ => decodeHead σ w'
     (idx, r) :: sessionL dc cfg (linkAfter idx lv r w) rest
 
+/-! ## the body file -/
+
+/-- the file `Session.download(file)` writes the body into: contents and position -/
+structure FileSt where
+  data : Bytes
+  pos : Nat
+  deriving DecidableEq, Repr
+
+/-- `file.write(d)` at the current position -/
+def FileSt.write (f : FileSt) (d : Bytes) : FileSt :=
+  { data := f.data.take f.pos ++ d ++ f.data.drop (f.pos + d.length), pos := f.pos + d.length }
+
+/-- what a caller reads from the current position (`Body.content()`) -/
+def FileSt.content (f : FileSt) : Bytes := f.data.drop f.pos
+
+/-- `Session.download(file, rewind=True)`: the decoded body is written at the position the
+file has, then the file is put back to THAT position (not to 0): with `-O`, `--save-headers`
+or `--continue` the file already holds other bytes -/
+def downloadInto (f : FileSt) (body : Bytes) : FileSt := { (f.write body) with pos := f.pos }
+
 /-! ## request side (C04) -/
 
 /-- `RawRequest.to_bytes()`: request line, fields (already serialised), blank line -/
